@@ -89,12 +89,18 @@ def check_single(case, ev):
     form = S.FORM_BY_ID[case["form"]]
     v, c = case["value"], case["cls"]
     line, spans = S.render(form, case["head"], case["trail"], [v], tuple(case["enc"]), case["lead"], case["tail_ws"])
-    if case.get("context"):
+    if case.get("pad"):
+        # one long token in front of the form: the physical line is longer than 64 KiB and a multiple of
+        # 65536 falls into the keyword / secret part (built here so that the case stays small)
+        ctx = "description " + "x" * case["pad"]
+    else:
+        ctx = case.get("context")
+    if ctx:
         # non-ASCII text before the recognised form (a prompt, a description): kept as it is
         rest = line[len(case["lead"]) :]
         cut = len(rest) - len(rest.lstrip())  # heads that start with a blank: no double blank after the context
-        delta = len(case["context"]) + 1 - cut
-        line = case["lead"] + case["context"] + " " + rest.lstrip()
+        delta = len(ctx) + 1 - cut
+        line = case["lead"] + ctx + " " + rest.lstrip()
         spans = [(a + delta, b + delta) for a, b in spans]
     if case.get("via") == "file":
         import os
@@ -127,7 +133,7 @@ def check_single(case, ev):
     classes = S.classify(v) if c != "text" else {"text"}
     amb = len(classes - {"hex"} if "type7" in classes and c == "type7" else classes) > 1
     enc = tuple(case["enc"]) != ("", "") and form.enclose
-    ev.case(case, (c != "text" and not amb) or enc, ["class-" + c, "form-" + form.id, "via-" + case.get("via", "io")] + (["non-ascii-context"] if case.get("context") else []) + (["sensitive-word-inside-the-secret"] if case.get("words") else []) + (["enclosed"] if enc else []) + (["ambiguous"] if amb else []))
+    ev.case(case, (c != "text" and not amb) or enc, ["class-" + c, "form-" + form.id, "via-" + case.get("via", "io")] + (["non-ascii-context"] if case.get("context") else []) + (["line-longer-than-64KiB"] if case.get("pad") else []) + (["sensitive-word-inside-the-secret"] if case.get("words") else []) + (["enclosed"] if enc else []) + (["ambiguous"] if amb else []))
     lead_ws = line[: len(line) - len(line.lstrip())]
     tail_ws = line[len(line.rstrip()) :]
     if not out.startswith(lead_ws) or not out.endswith(tail_ws) or out[len(lead_ws) : len(out) - len(tail_ws) or None].strip() != out.strip():
@@ -269,6 +275,21 @@ def _pair_case(draw):
     return {"items": items, "salt": draw(st.sampled_from(["Tsalt", "", "s", "QzF"]))}
 
 
+def t_longline(shard, nshards, seed, ev, known, n=10):
+    cases = []
+    for k, c in enumerate(core.collect_cases(_case(), n + 3, seed)[3:]):
+        form = S.FORM_BY_ID[c["form"]]
+        body = S.render(form, c["head"], c["trail"], [c["value"]], tuple(c["enc"]), "", "")[0]
+        c["context"] = None
+        c["via"] = "io"
+        c["pad"] = 65536 * (1 + k % 2) - len("description ") - 1 - len(c["lead"]) - core.derive("c09pad", seed, k) % (len(body) + 2)
+        cases.append(c)
+    return core.enum_drive(cases, check_single, ev, known, "longline")
+
+
+REPLAY["longline"] = check_single
+
+
 def t_pair(shard, nshards, seed, ev, known, n=300):
     return core.hyp_drive(_pair_case(), check_pair, n, seed, ev, known, check_name="pair")
 
@@ -301,4 +322,5 @@ def plan(tier):
         Task("single", t_single, shards=6 if q else 16, n=1500 if q else 20000),
         Task("grid", t_grid, shards=2 if q else 4),
         Task("pair", t_pair, shards=3 if q else 16, n=800 if q else 8000),
+        Task("longline", t_longline, shards=2 if q else 8, n=12 if q else 150),
     ]
